@@ -67,7 +67,7 @@ func c30Alphabet(p *core.Pkg, rs *core.RsSchema, predOnly bool) []*core.Atom {
 		switch a.Kind {
 		case "leaf", "leaflist":
 			keep = rel[n]
-		case "entry", "emptylist":
+		case "entry", "emptylist", "unkeyed":
 			for r := range rel {
 				if strings.HasPrefix(r, n+"/") {
 					keep = true
@@ -93,10 +93,13 @@ func c30Validate(t interface{}, opts ...ygot.ValidationOption) (err error) {
 // representable at all. These key leafrefs are not judged (ygot never visits them either: the
 // field is walked once, with the schema of its first path).
 func c30Skip(p *core.Pkg) func(core.Path, *yang.Entry) bool {
-	if !p.Compressed {
-		return nil
-	}
 	return func(lp core.Path, e *yang.Entry) bool {
+		if len(lp) > 0 && lp[len(lp)-1].Name == "to-ul" {
+			return true // leafref into a list without keys (schema vlr): not judged, see c30Eval
+		}
+		if !p.Compressed {
+			return false
+		}
 		if len(lp) < 2 {
 			return false
 		}
@@ -138,6 +141,18 @@ func c30Eval(p *core.Pkg, rs *core.RsSchema, atoms []*core.Atom) c30Facts {
 	if err := c30Validate(t, &ytypes.LeafrefOptions{IgnoreMissingData: true}); err != nil {
 		out.sig, out.detail = "error-with-ignore-missing:", fmt.Sprintf("Validate(IgnoreMissingData) = %v", err)
 		return out
+	}
+	// Log only asks for the suppressed errors to be logged: it must not bring them back
+	if err := c30Validate(t, &ytypes.LeafrefOptions{IgnoreMissingData: true, Log: true}); err != nil {
+		out.sig, out.detail = "error-with-ignore-missing+log:", fmt.Sprintf("Validate(IgnoreMissingData, Log) = %v", err)
+		return out
+	}
+	for _, a := range atoms {
+		if strings.HasPrefix(a.Name, "/Lr/ToUl=") {
+			// ygot cannot traverse a list without keys; only the IgnoreMissingData variants above are judged
+			out.class = "excluded-leafref-into-keyless-list"
+			return out
+		}
 	}
 	verr := c30Validate(t)
 	if verr != nil && strings.Contains(verr.Error(), "PANIC") {
